@@ -41,6 +41,9 @@ var solvers = []solverSpec{
 
 func (o *Obligation) smt(withModel bool) string {
 	var sb strings.Builder
+	if o.Class == "frame-scan" {
+		return "; discharged by call-graph scan, no SMT query\n"
+	}
 	sb.WriteString("(set-option :produce-models true)\n(set-logic ALL)\n")
 	for _, l := range o.vc.enc.header {
 		sb.WriteString(l)
